@@ -16,7 +16,8 @@ RULE = (
     "Hypothesis stateful machine per solver object: init draws dim in {2,3}, every extent "
     "independently (2..20 in 2-D, 2..9 in 3-D quick; 2..48 / 2..16 thorough), x_range over 4 decades, "
     "precision, thread count; rules solve(rhs)/vector_solve(rhs3)/scribble(buffer,value)/"
-    "impulse_pair(a,b); after every solve the result is compared with the O(N^2) direct aperiodic "
+    "impulse_pair(a,b)/second_solver(factor: another live solver object of the same shape and precision "
+    "but another domain size)/switch_solver; after every solve the result is compared with the O(N^2) direct aperiodic "
     "convolution with the sampled Green's function (float64, scipy.signal.convolve method=direct). "
     "A history is non-trivial when the grid is non-square/non-cubic or has an odd extent AND "
     "(it contains >= 2 solves with different right-hand sides OR a scribble before a solve OR an "
@@ -71,6 +72,11 @@ def _rules(tier):
         "impulse_pair": ({"a": st.lists(frac, min_size=3, max_size=3),
                           "b": st.lists(frac, min_size=3, max_size=3),
                           "amp_exp": st.integers(-8, 8)}, None),
+        # a second solver object of the same grid shape and precision but another domain size (two simulations, or a
+        # refinement study, in one process); "switch_solver" goes back and forth between the live objects
+        "second_solver": ({"factor": st.one_of(st.sampled_from([0.4, 2.5]), gen.log_uniform(0.05, 20.0)),
+                           "threads": st.sampled_from([1, 2])}, lambda s: s.get("solver") is not None and len(s.get("others", [])) < 2),
+        "switch_solver": ({"which": st.integers(0, 1)}, lambda s: len(s.get("others", [])) > 0),
     }
 
 
@@ -99,33 +105,53 @@ def _step(s, op, ctx):
 
     kind = op["op"]
     s["ctx"] = ctx
+
+    def _construct(dim, shape, real_t, x_range, threads):
+        with ctx.repo_call("constructing the unbounded Poisson solver"):
+            if dim == 2:
+                solver = spne.UnboundedPoissonSolverPYFFTW2D(
+                    grid_size_y=shape[0], grid_size_x=shape[1], x_range=x_range,
+                    num_threads=threads, real_t=real_t)
+            else:
+                solver = spne.UnboundedPoissonSolverPYFFTW3D(
+                    grid_size_z=shape[0], grid_size_y=shape[1], grid_size_x=shape[2],
+                    x_range=x_range, num_threads=threads, real_t=real_t)
+        dx64 = float(x_range) / shape[-1]
+        G = ref.greens_separation_kernel(shape, dx64)
+        return {"solver": solver, "dx64": dx64, "G": G, "Gnorm": float(np.linalg.norm(G)), "x_range": float(x_range), "used": False}
+
     if kind == "init":
         dim = op["dim"]
         shape = tuple(op["shape"])
         real_t = gen.np_dtype(op["dtype"])
-        with ctx.repo_call("constructing the unbounded Poisson solver"):
-            if dim == 2:
-                solver = spne.UnboundedPoissonSolverPYFFTW2D(
-                    grid_size_y=shape[0], grid_size_x=shape[1], x_range=op["x_range"],
-                    num_threads=op["threads"], real_t=real_t)
-            else:
-                solver = spne.UnboundedPoissonSolverPYFFTW3D(
-                    grid_size_z=shape[0], grid_size_y=shape[1], grid_size_x=shape[2],
-                    x_range=op["x_range"], num_threads=op["threads"], real_t=real_t)
-        dx64 = float(op["x_range"]) / shape[-1]
-        G = ref.greens_separation_kernel(shape, dx64)
-        s.update(solver=solver, dim=dim, shape=shape, real_t=real_t, dx64=dx64, G=G,
-                 Gnorm=float(np.linalg.norm(G)), n_solves=0, rhs_digests=set(), scribbled=False,
-                 scribble_then_solve=False, impulse=False)
+        cur = _construct(dim, shape, real_t, op["x_range"], op["threads"])
+        s.update(cur)
+        s.update(dim=dim, shape=shape, real_t=real_t, n_solves=0, rhs_digests=set(), scribbled=False,
+                 scribble_then_solve=False, impulse=False, others=[], objects_used=set())
         ctx.note(labels=[f"dim{dim}", op["dtype"],
                          "noncubic" if len(set(shape)) > 1 else "cubic",
                          "odd_extent" if any(n % 2 for n in shape) else "even_extents"])
         return
-    solver = s["solver"]
     shape, real_t, dim = s["shape"], s["real_t"], s["dim"]
+    if kind in ("second_solver", "switch_solver"):
+        keys = ("solver", "dx64", "G", "Gnorm", "x_range")
+        old = {k: s[k] for k in keys}
+        if kind == "second_solver":
+            new = _construct(dim, shape, real_t, float(real_t(s["x_range"] * op["factor"])), op["threads"])
+            ctx.note(labels=["second_solver_same_shape_other_spacing"])
+        else:
+            new = s["others"].pop(op["which"] % len(s["others"]))
+            ctx.note(labels=["switch_solver"])
+        s["others"].append(old)
+        s.update({k: new[k] for k in keys})
+        return
+    solver = s["solver"]
 
     def _after_solve(rhs_digest):
         s["n_solves"] += 1
+        s["objects_used"].add(id(solver))
+        if len(s["objects_used"]) >= 2:
+            ctx.note(labels=["solves_on_two_live_solver_objects"])
         s["rhs_digests"].add(rhs_digest)
         if s["scribbled"]:
             s["scribble_then_solve"] = True
